@@ -154,7 +154,7 @@ class MEngine:
                 ctx.extra['vacuity_guards_passed'] = ctx.extra.get('vacuity_guards_passed', 0) + 1
             elif verdict == p['expect']:
                 ctx.record(p['name'], 'M', 'held', key=p['key'], time_s=dt, bound='semantics %s' % (p['sem'],),
-                           sample={'obligation': p['name'], 'semantics': str(p['sem']), 'verdict': verdict, 'time_s': round(dt, 3), 'note': p['note']} if len(ctx.samples) < 12 else None)
+                           sample={'obligation': p['name'], 'semantics': str(p['sem']), 'verdict': verdict, 'time_s': round(dt, 3), 'note': p['note']})
             elif p['expect'] == 'unsat' and verdict == 'sat':
                 self._candidate(p, out, dt, 'obligation "%s" refuted by %s (%s)' % (p['name'], p['solver'], p['note']))
             elif p['expect'] == 'sat' and verdict == 'unsat':
